@@ -194,6 +194,7 @@ def run(chk):
     )
     if errors:
         chk.violation({"kind": "correspondence-error", "what": "cases file did not evaluate", "errors": errors}, no_input=True)
+    policy_level(chk, theorems_ok)
 
     def fails_batch(cands):
         ob = common.run_driver("budget_driver", cands)
@@ -219,8 +220,63 @@ def run(chk):
         )
 
 
+def policy_level(chk, theorems_ok):
+    """(a) call sequences on policies sharing one Budget against the Runner model (projection: budget calls, retry and
+    budget_exhausted events); (b) two threads, each one failing execute() on its own Retry sharing a Budget with one token,
+    pre-empted before every source line of policy/state.py: retries granted <= tokens in every schedule."""
+    import runner_common as rc
+    keep = {"defer": True}
+    saved = {k: chk.coverage.get(k) for k in ("evaluations", "distinct_nontrivial", "traces_validated_against_impl", "rule", "samples")}
+    rc.run_runner_check(chk, "C10", "proj_C10", {"p_budget": 1.0, "p_single": 0.2, "p_fail_exc": 0.7, "p_tight_deadline": 0.1},
+                        theorems_ok=theorems_ok, n_quick=250, n_thorough=4000, oracle_pid="C10", keep_result=keep)
+    # run_runner_check overwrote the top-level counters: fold them into a sub-dictionary
+    pl = {k: chk.coverage.pop(k) for k in ("distribution", "projection", "abort_sentinel_scripts") if k in chk.coverage}
+    for k in ("evaluations", "distinct_nontrivial", "traces_validated_against_impl"):
+        pl[k] = chk.coverage.get(k, 0)
+        chk.coverage[k] = (saved[k] or 0) + (pl[k] or 0)
+    pl["rule"] = chk.coverage.get("rule")
+    chk.coverage["rule"] = saved["rule"]
+    chk.coverage["samples"] = (saved["samples"] or []) + (chk.coverage.get("samples") or [])[:1]
+    chk.coverage["policy_level"] = pl
+    if keep.get("failing") and not chk.violations:
+        i = keep["failing"][0]
+        chk.violation({"kind": "correspondence", "what": "Corr.rcase_ok proj_C10: budget interactions of the retry loop differ from the "
+                       "Coq model (e.g. the budget is consulted other than by one consume() per permitted retry); the oracle found no "
+                       "over-grant on sequential scripts", "script": keep["seqs"][i], "observed": keep["obs"][i],
+                       "disagreements": len(keep["failing"])}, no_input=True)
+    scs = [{"name": "two failing calls on policies sharing a budget with one token", "kind": "policy_budget",
+            "cfg": {"max": 1, "win": 1000, "policies": 2, "max_attempts": 2}, "clock": 3, "threads": [[["execute", 0]], [["execute", 1]]],
+            "bound": 2 if chk.tier == "quick" else 3, "max_schedules": 800 if chk.tier == "quick" else 20000},
+           {"name": "three failing calls, two tokens", "kind": "policy_budget",
+            "cfg": {"max": 2, "win": 1000, "policies": 3, "max_attempts": 2}, "clock": 3,
+            "threads": [[["execute", 0]], [["execute", 1]], [["execute", 2]]], "bound": 1 if chk.tier == "quick" else 2,
+            "max_schedules": 800 if chk.tier == "quick" else 20000}]
+    res = common.run_driver("sched_driver", scs, timeout=3000, jobs=2)
+    pl["thread_schedules"] = [{"name": sc["name"], "schedules": r["schedules"], "outcomes": len(r["outcomes"])} for sc, r in zip(scs, res)]
+    for sc, r in zip(scs, res):
+        for o in r["outcomes"]:
+            granted = sum(x[0][3] for x in o[0] if x)
+            if granted > sc["cfg"]["max"] or o not in r["sequential"]:
+                chk.violation({"kind": "oracle", "what": f"scenario '{sc['name']}': {granted} retries granted with max_retries="
+                               f"{sc['cfg']['max']} in one window (outcome {json.dumps(o)}; sequential outcomes {json.dumps(r['sequential'])})",
+                               "scenario": sc, "driver": "sched_driver"})
+                return
+        if r["deadlocks"] or r["errors"]:
+            chk.violation({"kind": "oracle", "what": f"scenario '{sc['name']}': deadlock or error {r['errors'][:1]}", "scenario": sc,
+                           "driver": "sched_driver"})
+            return
+
+
 def replay(path):
     r = json.load(open(path))
+    if "scenario" in r:
+        res = common.run_driver("sched_driver", [r["scenario"]], timeout=3000)[0]
+        bad = [o for o in res["outcomes"] if o not in res["sequential"]]
+        print("schedules:", res["schedules"], "non-sequential outcomes:", bad[:2])
+        return 1 if bad else 0
+    if "script" in r:
+        import runner_common as rc
+        return rc.replay_runner(path)
     case = r["case"]
     o = common.run_driver(r.get("driver", "budget_driver"), [case])[0]
     msg = oracle(case, o)
